@@ -496,6 +496,66 @@ v("C10", "hooks-local-copy-second-call", "break", ["C10.once"], [("log.go",
   "\tvar ctxString string\n\tif StringFromContext != nil {\n\t\tctxString = StringFromContext(ctx)\n\t}\n",
   "\tvar ctxString string\n\tif fn := StringFromContext; fn != nil {\n\t\tctxString = fn(ctx)\n\t\tctxString = fn(ctx)\n\t}\n")])
 
+# ---------------------------------------------------------------- more behaviour-preserving refactors (keep), round 3b
+v("C15", "parse-error-first", "keep", [], [("plugin.go",
+  "\t\tu, err := strconv.ParseUint(val, 0, 0)\n\t\tif err == nil {\n\t\t\tfv.SetUint(u)\n\t\t\treturn nil\n\t\t}\n\t\treturn errutil.Stack(err, \"inject struct field %s error\", ft.Name)\n",
+  "\t\tu, err := strconv.ParseUint(val, 0, 0)\n\t\tif err != nil {\n\t\t\treturn errutil.Stack(err, \"inject struct field %s error\", ft.Name)\n\t\t}\n\t\tfv.SetUint(u)\n\t\treturn nil\n"),
+  ("plugin.go",
+  "\t\ti, err := strconv.ParseInt(val, 0, 0)\n\t\tif err == nil {\n\t\t\tfv.SetInt(i)\n\t\t\treturn nil\n\t\t}\n\t\treturn errutil.Stack(err, \"inject struct field %s error\", ft.Name)\n",
+  "\t\ti, err := strconv.ParseInt(val, 0, 0)\n\t\tif err != nil {\n\t\t\treturn errutil.Stack(err, \"inject struct field %s error\", ft.Name)\n\t\t}\n\t\tfv.SetInt(i)\n\t\treturn nil\n")])
+v("C15", "single-element-lookup-merged", "keep", [], [("plugin.go",
+  "\t\t} else if s.Has(elemKey) { // Single element\n\t\t\tconst def = \":def:\"\n\t\t\tstrType := s.Get(elemKey+\".type\", def)\n\n\t\t\tvar (\n\t\t\t\tp  *Plugin\n\t\t\t\tok bool\n\t\t\t)\n\t\t\tif strType != def {\n\t\t\t\tif p, ok = pluginRegistry[PluginType(toCamelKey(elemType))][strType]; !ok {\n\t\t\t\t\terr := errutil.Explain(nil, \"plugin %s not found\", strType)\n\t\t\t\t\treturn errutil.Stack(err, \"inject struct field %s error\", ft.Name)\n\t\t\t\t}\n\t\t\t} else {\n\t\t\t\tif p, ok = pluginRegistry[PluginType(toCamelKey(elemType))][elemType]; !ok {\n\t\t\t\t\terr := errutil.Explain(nil, \"plugin %s not found\", elemType)\n\t\t\t\t\treturn errutil.Stack(err, \"inject struct field %s error\", ft.Name)\n\t\t\t\t}\n\t\t\t}\n",
+  "\t\t} else if s.Has(elemKey) { // Single element\n\t\t\tconst def = \":def:\"\n\t\t\tstrType := s.Get(elemKey+\".type\", def)\n\t\t\tif strType == def {\n\t\t\t\tstrType = elemType\n\t\t\t}\n\t\t\tp, ok := pluginRegistry[PluginType(toCamelKey(elemType))][strType]\n\t\t\tif !ok {\n\t\t\t\terr := errutil.Explain(nil, \"plugin %s not found\", strType)\n\t\t\t\treturn errutil.Stack(err, \"inject struct field %s error\", ft.Name)\n\t\t\t}\n")])
+v("C15", "placeholder-by-cut", "keep", [], [("plugin.go",
+  "\tif strings.HasPrefix(val, \"${\") && strings.HasSuffix(val, \"}\") {\n\t\tv, ok := s.RawData()[toCamelKey(val[2:len(val)-1])]\n",
+  "\tif inner, isRef := cutPlaceholder(val); isRef {\n\t\tv, ok := s.RawData()[toCamelKey(inner)]\n"),
+  ("plugin.go", "// injectElement injects child plugin elements into a struct field.",
+  "// cutPlaceholder returns the key inside a ${key} reference.\nfunc cutPlaceholder(val string) (string, bool) {\n\tinner, ok := strings.CutPrefix(val, \"${\")\n\tif !ok {\n\t\treturn \"\", false\n\t}\n\treturn strings.CutSuffix(inner, \"}\")\n}\n\n// injectElement injects child plugin elements into a struct field.")])
+v("C15", "name-attr-by-cut", "keep", [], [("plugin.go",
+  "\t\tname := prefix[strings.LastIndex(prefix, \".\")+1:]\n\t\tfv.SetString(name)\n",
+  "\t\tname := prefix\n\t\tif i := strings.LastIndex(prefix, \".\"); i >= 0 {\n\t\t\tname = prefix[i+1:]\n\t\t}\n\t\tfv.SetString(name)\n")])
+
+# ---------------------------------------------------------------- round-3 rules: value-level breaks and equivalent forms
+v("C11", "cache-key-narrowed", "break", ["C11.cache-key"], [("caller.go", "frameCache.Load(pc)", "frameCache.Load(uint32(pc))"),
+  ("caller.go", "frameCache.Store(pc, &frame)", "frameCache.Store(uint32(pc), &frame)")])
+v("C11", "cache-key-shifted", "break", ["C11.cache-key"], [("caller.go", "frameCache.Load(pc)", "frameCache.Load(pc >> 4)"),
+  ("caller.go", "frameCache.Store(pc, &frame)", "frameCache.Store(pc>>4, &frame)")])
+v("C11", "cache-key-copy", "keep", [], [("caller.go", "\tpc := rpc[0]\n", "\tpc := rpc[0]\n\tcacheKey := pc\n"),
+  ("caller.go", "frameCache.Load(pc)", "frameCache.Load(cacheKey)"), ("caller.go", "frameCache.Store(pc, &frame)", "frameCache.Store(cacheKey, &frame)")])
+v("C11", "setter-writes-other-flag", "break", ["C11.setters"], [("log.go", "\t\tfastCaller = b\n", "\t\tenableCaller = b\n")])
+v("C14", "age-narrow-multiplication", "break", ["C14.age"], [("plugin_appender.go",
+  "time.Now().Add(-time.Duration(c.MaxAge) * time.Hour)", "time.Now().Add(-time.Duration(c.MaxAge*3600) * time.Second)")])
+v("C14", "age-factors-swapped", "keep", [], [("plugin_appender.go",
+  "time.Now().Add(-time.Duration(c.MaxAge) * time.Hour)", "time.Now().Add(-(time.Hour * time.Duration(c.MaxAge)))")])
+v("C15", "camel-upper-range-open", "break", ["C15.camel"], [("log_reader.go",
+  "\t\t\tif c >= 'a' && c <= 'z' {\n\t\t\t\tc -= offset", "\t\t\tif c > 'a' && c <= 'z' {\n\t\t\t\tc -= offset")])
+v("C15", "camel-range-not-form", "keep", [], [("log_reader.go",
+  "\t\t\tif c >= 'a' && c <= 'z' {\n\t\t\t\tc -= offset", "\t\t\tif !(c < 'a' || c > 'z') {\n\t\t\t\tc -= offset")])
+v("C15", "parse-int-32-bits", "break", ["C15.int-width"], [("plugin.go", "strconv.ParseInt(val, 0, 0)", "strconv.ParseInt(val, 0, 32)")])
+v("C15", "parse-int-64-bits", "keep", [], [("plugin.go", "strconv.ParseInt(val, 0, 0)", "strconv.ParseInt(val, 0, 64)")])
+v("C15", "subst-prefix-off-by-one", "break", ["C15.subst"], [("plugin.go", "toCamelKey(val[2:len(val)-1])", "toCamelKey(val[1:len(val)-1])")])
+v("C15", "subst-suffix-unchecked", "break", ["C15.subst"], [("plugin.go",
+  "if strings.HasPrefix(val, \"${\") && strings.HasSuffix(val, \"}\") {", "if strings.HasPrefix(val, \"${\") {")])
+v("C15", "subst-cut-wrong-suffix", "break", ["C15.subst"], [("plugin.go",
+  "\tif strings.HasPrefix(val, \"${\") && strings.HasSuffix(val, \"}\") {\n\t\tv, ok := s.RawData()[toCamelKey(val[2:len(val)-1])]\n",
+  "\tif inner, isRef := cutPlaceholder(val); isRef {\n\t\tv, ok := s.RawData()[toCamelKey(inner)]\n"),
+  ("plugin.go", "// injectElement injects child plugin elements into a struct field.",
+  "// cutPlaceholder returns the key inside a ${key} reference.\nfunc cutPlaceholder(val string) (string, bool) {\n\tinner, ok := strings.CutPrefix(val, \"${\")\n\tif !ok {\n\t\treturn \"\", false\n\t}\n\treturn strings.CutSuffix(inner, \")\")\n}\n\n// injectElement injects child plugin elements into a struct field.")])
+v("C15", "subst-cut-ok-ignored", "break", ["C15.subst"], [("plugin.go",
+  "\tif strings.HasPrefix(val, \"${\") && strings.HasSuffix(val, \"}\") {\n\t\tv, ok := s.RawData()[toCamelKey(val[2:len(val)-1])]\n",
+  "\tif inner, isRef := strings.CutPrefix(val, \"${\"); isRef {\n\t\tinner, _ = strings.CutSuffix(inner, \"}\")\n\t\tv, ok := s.RawData()[toCamelKey(inner)]\n")])
+v("C17", "unquote-window-short", "break", ["C17.escapes"], [("expr/parse.go", "if c == '\\\\' && i+1 < len(s) {", "if c == '\\\\' && i+2 < len(s) {")])
+v("C17", "unquote-window-le-form", "keep", [], [("expr/parse.go", "if c == '\\\\' && i+1 < len(s) {", "if c == '\\\\' && i+1 <= len(s)-1 {")])
+v("C17", "table-hex-range-cut", "break", ["C17.tables"], [("expr/expr_lexer.go", "2, 0, 65, 70, 97, 102, 3,", "2, 0, 65, 70, 97, 101, 3,")])
+v("C17", "grammar-class-not-regenerated", "break", ["C17.tables"], [("expr/Expr.g4", "IDENT : [a-zA-Z_][a-zA-Z0-9_]* ;", "IDENT : [a-zA-Z_][a-zA-Z0-9_$]* ;")],
+  "the grammar was edited and the lexer not regenerated")
+v("C18", "buildtag-action-le-zero", "break", ["C18.register:BuildTag#omits"], [("log_tag.go", "\tif action == \"\" {\n\t\treturn \"_\" + mainType", "\tif action <= \"0\" {\n\t\treturn \"_\" + mainType")])
+v("C18", "buildtag-len-form", "keep", [], [("log_tag.go", "\tif action == \"\" {\n\t\treturn \"_\" + mainType", "\tif len(action) == 0 {\n\t\treturn \"_\" + mainType")])
+v("C20", "async-chosen-by-other-flag", "break", ["C20.async-opt-in"], [("plugin_logger.go", "func (f *RollingFileLogger) Start() error {\n\tif f.AsyncWrite {", "func (f *RollingFileLogger) Start() error {\n\tif f.Separate {")])
+v("C20", "async-choice-negated-form", "keep", [], [("plugin_logger.go",
+  "\tif f.AsyncWrite {\n\t\treturn initRollingFileLogger(f, func(f *RollingFileLogger) Logger {\n\t\t\treturn &AsyncLogger{\n\t\t\t\tLoggerBase:       f.LoggerBase,\n\t\t\t\tBufferSize:       f.BufferSize,\n\t\t\t\tBufferFullPolicy: f.BufferFullPolicy,\n\t\t\t}\n\t\t})\n\t} else {\n\t\treturn initRollingFileLogger(f, func(f *RollingFileLogger) Logger {\n\t\t\treturn &SyncLogger{\n\t\t\t\tLoggerBase: f.LoggerBase,\n\t\t\t}\n\t\t})\n\t}",
+  "\tif !f.AsyncWrite {\n\t\treturn initRollingFileLogger(f, func(f *RollingFileLogger) Logger {\n\t\t\treturn &SyncLogger{\n\t\t\t\tLoggerBase: f.LoggerBase,\n\t\t\t}\n\t\t})\n\t}\n\treturn initRollingFileLogger(f, func(f *RollingFileLogger) Logger {\n\t\treturn &AsyncLogger{\n\t\t\tLoggerBase:       f.LoggerBase,\n\t\t\tBufferSize:       f.BufferSize,\n\t\t\tBufferFullPolicy: f.BufferFullPolicy,\n\t\t}\n\t})")])
+
 
 def main():
     for k in ("break", "keep"):
